@@ -8,13 +8,17 @@ Verdict(t) ==
   LET r == FoldLeft(LAMBDA acc, i :
               LET call == t.calls[i]
                   c == Step(t.variant, acc[1], call)
-                  bad == IF call.raised # "" THEN "C14.data_received"
-                         ELSE IF \E k \in 1..Len(call.fed) : call.fed[k].raised # "" THEN "C14.read"
-                         ELSE IF c[3] # "" THEN c[3]
-                         ELSE IF call.delta # c[2] THEN
-                              (IF acc[1] = 0 /\ c[1] = 0 THEN "C13.enqueued_before_selection" ELSE "C13.delta")
-                         ELSE ""
-              IN <<c[1], IF bad # "" THEN Append(acc[2], [c |-> bad, at |-> i]) ELSE acc[2], acc[3] \o call.delta>>,
+                  bad14 == IF call.raised # "" THEN "C14.data_received"
+                           ELSE IF \E k \in 1..Len(call.fed) : call.fed[k].raised # "" THEN "C14.read" ELSE ""
+                  \* the queue clause is judged also when the call raised: messages lost to an exception are lost all the same
+                  bad13 == IF (\E k \in 1..Len(call.fed) : call.fed[k].raised # "") THEN ""
+                           ELSE IF c[3] # "" THEN c[3]
+                           ELSE IF call.delta # c[2] THEN
+                                (IF acc[1] = 0 /\ c[1] = 0 THEN "C13.enqueued_before_selection" ELSE "C13.delta")
+                           ELSE ""
+                  a1 == IF bad14 # "" THEN Append(acc[2], [c |-> bad14, at |-> i]) ELSE acc[2]
+                  a2 == IF bad13 # "" THEN Append(a1, [c |-> bad13, at |-> i]) ELSE a1
+              IN <<c[1], a2, acc[3] \o call.delta>>,
             <<0, <<>>, <<>>>>, [i \in 1..Len(t.calls) |-> i])
       e2e == IF t.mode = "clean" /\ r[3] # t.plan_payloads THEN <<[c |-> "C13.end_to_end", at |-> 0]>> ELSE <<>>
       fails == r[2] \o e2e
